@@ -23,6 +23,7 @@ type c01Case struct {
 	Cfg   string  `json:"cfg"`
 	Kind  string  `json:"kind"` // select | update | delete | child | join | gjoin
 	Style string  `json:"style"`
+	Deco  string  `json:"deco,omitempty"` // table-name decorations, see plSpellX
 	Cond  *plCond `json:"cond"`
 	On    *plCond `json:"on,omitempty"`
 	SQL   string  `json:"sql,omitempty"`
@@ -42,46 +43,40 @@ type c01Result struct {
 func c01SQL(c *plCfg, cs *c01Case) string {
 	switch cs.Kind {
 	case "select", "update", "delete":
-		ref, cols := plSpell(c, cs.Style, c.Table, c.Key)
-		w := cs.Cond.SQL(cols)
+		sp := plSpellX(c, cs.Style, cs.Deco, c.Table, c.Key, "a")
+		w := cs.Cond.SQL(sp.Cols)
 		switch cs.Kind {
 		case "select":
-			return "SELECT * FROM " + ref + " WHERE " + w
+			return "SELECT * FROM " + sp.Ref + " WHERE " + w
 		case "update":
-			return "UPDATE " + ref + " SET " + cols["cnt"] + " = " + cols["cnt"] + " + 1 WHERE " + w
+			return "UPDATE " + sp.Ref + " SET " + sp.Cols["cnt"] + " = " + sp.Cols["cnt"] + " + 1 WHERE " + w
 		}
-		return "DELETE FROM " + ref + " WHERE " + w
+		return "DELETE FROM " + sp.Ref + " WHERE " + w
 	case "child":
-		ref, cols := plSpell(c, cs.Style, c.Child, c.ChildKey)
-		return "SELECT * FROM " + ref + " WHERE " + cs.Cond.SQL(cols)
+		sp := plSpellX(c, cs.Style, cs.Deco, c.Child, c.ChildKey, "a")
+		return "SELECT * FROM " + sp.Ref + " WHERE " + cs.Cond.SQL(sp.Cols)
 	case "join":
-		pref, pcols := plSpell(c, cs.Style, c.Table, c.Key)
-		cref, ccols := plSpell(c, cs.Style, c.Child, c.ChildKey)
-		if cs.Style == "alias" {
-			cref = c.Child + " AS b"
-			ccols["key"] = "b." + c.ChildKey
-		}
-		cols := map[string]string{"key": pcols["key"], "other": pcols["other"], "ckey": ccols["key"]}
+		ps := plSpellX(c, cs.Style, cs.Deco, c.Table, c.Key, "a")
+		cc := plSpellX(c, cs.Style, cs.Deco, c.Child, c.ChildKey, "b")
+		cols := map[string]string{"key": ps.Cols["key"], "other": ps.Cols["other"], "ckey": cc.Cols["key"]}
 		on := cols["key"] + " = " + cols["ckey"]
 		if cs.On != nil {
 			on += " AND (" + cs.On.SQL(cols) + ")"
 		}
-		return "SELECT * FROM " + pref + " JOIN " + cref + " ON " + on + " WHERE " + cs.Cond.SQL(cols)
+		return "SELECT * FROM " + ps.Ref + " JOIN " + cc.Ref + " ON " + on + " WHERE " + cs.Cond.SQL(cols)
 	case "gjoin":
-		pref, pcols := plSpell(c, cs.Style, c.Table, c.Key)
-		gref, gcols := plSpell(c, cs.Style, c.Glob, "gid")
-		if cs.Style == "alias" {
-			gref = c.Glob + " AS b"
-			gcols["key"] = "b.gid"
-		}
-		cols := map[string]string{"key": pcols["key"], "other": pcols["other"], "gkey": gcols["key"]}
-		return "SELECT * FROM " + pref + ", " + gref + " WHERE " + cs.Cond.SQL(cols)
+		ps := plSpellX(c, cs.Style, cs.Deco, c.Table, c.Key, "a")
+		gs := plSpellX(c, cs.Style, cs.Deco, c.Glob, "gid", "b")
+		cols := map[string]string{"key": ps.Cols["key"], "other": ps.Cols["other"], "gkey": gs.Cols["key"]}
+		return "SELECT * FROM " + ps.Ref + ", " + gs.Ref + " WHERE " + cs.Cond.SQL(cols)
 	}
 	return ""
 }
 
+// c01Names lists the qualifiers that resolve to a table of the statement (lower case, as
+// the evaluator compares them; table names are taken case-insensitively).
 func c01Names(style, tbl string, second bool) []string {
-	if style == "alias" {
+	if style == "alias" || style == "dbalias" {
 		if second {
 			return []string{"b"}
 		}
@@ -116,6 +111,15 @@ func c01Run(cs *c01Case) (res c01Result) {
 		tbl = c.Child
 	}
 	sent := plFlatten(pl.SQLs)
+	if pl.Unshard {
+		res.Clause = "planned-as-unsharded"
+		how := "BuildPlan returned an UnshardPlan"
+		if pl.Fast {
+			how = "the session's token pre-check took it for a statement on unsharded tables"
+		}
+		res.Detail = fmt.Sprintf("statement on sharded table %s: %s; it is sent verbatim to the default slice only: %v", tbl, how, sent)
+		return
+	}
 	idxs, unknown, derr := plDecodeTargets(c, tbl, sent)
 	if derr != nil {
 		// the backend would refuse the text (syntax error): an execution-time rejection, nothing is read
@@ -237,6 +241,18 @@ func c01Minimize(cs *c01Case, clause string) (*c01Case, string) {
 				x.Cond = c01Rename(cur.Cond, "ckey", "key")
 				cands = append(cands, &x)
 			}
+			for i := range cur.Deco {
+				x := cur
+				x.Deco = cur.Deco[:i] + cur.Deco[i+1:]
+				cands = append(cands, &x)
+			}
+			if cur.Style == "dbalias" {
+				for _, st := range []string{"db", "alias"} {
+					x := cur
+					x.Style = st
+					cands = append(cands, &x)
+				}
+			}
 			if cur.Style != "bare" && (cur.Kind == "select" || cur.Kind == "update" || cur.Kind == "delete" || cur.Kind == "child") {
 				x := cur
 				x.Style = "bare"
@@ -275,15 +291,24 @@ func c01Minimize(cs *c01Case, clause string) (*c01Case, string) {
 		return fails(&x)
 	})
 	parts := []string{c.Type, clause}
+	if clause == "planned-as-unsharded" {
+		// decided from the tokens of the statement, before any rule is consulted
+		parts = []string{clause}
+	}
 	if cur.Kind != "select" {
 		parts = append(parts, "kind="+cur.Kind)
 	}
 	if cur.Style != "bare" && cur.Kind != "join" && cur.Kind != "gjoin" {
 		parts = append(parts, "style="+cur.Style)
 	}
-	parts = append(parts, cur.Cond.Shape())
-	if cur.On != nil {
-		parts = append(parts, "on="+cur.On.Shape())
+	if cur.Deco != "" {
+		parts = append(parts, "deco="+cur.Deco)
+	}
+	if clause != "planned-as-unsharded" {
+		parts = append(parts, cur.Cond.Shape())
+		if cur.On != nil {
+			parts = append(parts, "on="+cur.On.Shape())
+		}
 	}
 	c01Run(&cur) // refresh SQL text
 	return &cur, strings.Join(parts, "|")
@@ -316,7 +341,7 @@ func c01Roles(kind string) []string {
 
 func c01StylesFor(kind string) []string {
 	if kind == "join" || kind == "gjoin" {
-		return []string{"tbl", "alias", "db"}
+		return []string{"tbl", "alias", "db", "dbalias"}
 	}
 	return plStyles
 }
@@ -424,6 +449,26 @@ func TestVerif_C01(t *testing.T) {
 	}
 	rec.Set("structured_cases", rec.CounterValue("accepted")+rec.CounterValue("rejected_error")+rec.CounterValue("rejected_panic"))
 
+	// (1b) every spelling of the table reference (case, back-quotes, schema, alias with and
+	// without AS, comment before the name) with a fixed point condition
+	for i, id := range ids {
+		if kit.Tier() != "thorough" && i%7 != int(kit.Seed()%7) {
+			continue
+		}
+		c, _ := plGetCfg(id, "")
+		point := &plCond{Op: "cmp", Col: "key", Cmp: "=", Lits: []plLit{{SQL: c.Keys[0].SQL, Class: c.Keys[0].Class}}}
+		for _, kind := range []string{"select", "update", "delete", "child", "join"} {
+			for _, st := range c01StylesFor(kind) {
+				for _, dc := range []string{"", "U", "M", "Q", "C", "N", "UQ", "MC", "CN", "UN", "QC"} {
+					if strings.Contains(dc, "N") && st != "alias" && st != "dbalias" {
+						continue
+					}
+					runOne(&c01Case{Cfg: id, Kind: kind, Style: st, Deco: dc, Cond: point})
+				}
+			}
+		}
+	}
+
 	// (2) random trees of depth <= 3 with every kind and style
 	r := kit.SubRand(kit.Seed(), "C01/random")
 	n := kit.N(4500, 300000)
@@ -432,7 +477,7 @@ func TestVerif_C01(t *testing.T) {
 		c, _ := plGetCfg(id, "")
 		kind := kinds[r.Intn(len(kinds))]
 		styles := c01StylesFor(kind)
-		cs := &c01Case{Cfg: id, Kind: kind, Style: styles[r.Intn(len(styles))]}
+		cs := &c01Case{Cfg: id, Kind: kind, Style: styles[r.Intn(len(styles))], Deco: plDecos[r.Intn(len(plDecos))]}
 		cs.Cond = plGenCond(r, c, r.Range(1, 3), c01Roles(kind))
 		if kind == "join" && r.Chance(1, 2) {
 			cs.On = plGenCond(r, c, r.Range(1, 2), c01Roles(kind))
